@@ -10,6 +10,7 @@ open AgdbSearch
 #print axioms C14_terminates
 #print axioms C14_graph_exact
 #print axioms C14_graph_terminates
+#print axioms C14_every_history
 #print axioms C14_bfs_distance
 #print axioms C14_dfs_order
 #print axioms C14_dfs_order_unique
